@@ -100,9 +100,8 @@ void MetaOptimizer::doInit(const ParameterList& parameters)
     }
   }
 
-  // Actualize parameters:
-  getParameters_().matchParametersValues(getFunction()->getParameters());
-
+  // Start from the point given to init(), as every other optimizer does
+  // (not from wherever the function currently is):
   getFunction()->setParameters(getParameters());
   initialValue_ = getFunction()->getValue();
   // Reset counter:
